@@ -10,6 +10,8 @@ L6  every encoding call is dominated by a positive gate answer on the same liter
 L7  the reader decodes as many array elements as the type says (not as the bit slice happens to hold)
 L8  the literal entry point returns Ok only when the token stream is exhausted and no error was recorded
 L9  a parser function that consumed an opening bracket consumes the matching closing bracket on every path to Ok
+L11 the type checker compares the end of a range literal with the max of its element type (typed and untyped ranges)
+L10 literal_arg / parse_arg / set_literal / parse_literal test or parse against the parameter type with const sizes resolved
 """
 from .. import mir
 from ..core import AnchorMissing, Finding, RuleResult
@@ -73,30 +75,68 @@ def comparisons(ctx, fid):
     return out
 
 
+STEP = dict(mir.TRANSPARENT)
+STEP.update({"std::ops::Sub::sub": 0, "core::num::<impl u64>::saturating_sub": 0, "core::num::<impl u64>::wrapping_sub": 0, "core::num::<impl u64>::checked_sub": 0})
+
+
+def comparisons_step(ctx, fid):
+    """like comparisons(), following a payload through `- 1` (the last element of a range is its exclusive end minus one)."""
+    out = []
+    for body in bodies_with_closures(ctx, fid):
+        for b, blk in enumerate(body.blocks):
+            if blk["cleanup"]:
+                continue
+            for st in blk["stmts"]:
+                if st["k"] == "assign" and st["rv"]["k"] == "binop" and st["rv"]["op"] in CMP:
+                    sides = []
+                    for side in ("l", "r"):
+                        o = set(ctx.lifted_trace(body, st["rv"][side], through=STEP))
+                        # `x - 1` written with the operator: follow the left operand of a Sub / SubWithOverflow
+                        for (f, r, p) in list(o):
+                            if r[0] == "rv" and r[1] in ("binop", "checked_binop"):
+                                ob = ctx.body(f)
+                                rv = ob.blocks[r[2]]["stmts"][r[3]]["rv"]
+                                if rv.get("op", "").startswith("Sub"):
+                                    o |= set(ctx.lifted_trace(ob, rv["l"], through=STEP))
+                        sides.append(o)
+                    out.append((body, b, st, sides[0], sides[1]))
+    return out
+
+
+def _bound_names(ctx, cmps, is_payload):
+    """Names of the functions whose result a payload (is_payload(fn, root, path)) is compared with."""
+    found = set()
+    for (body, b, st, lo, ro) in cmps:
+        for mine, other in ((lo, ro), (ro, lo)):
+            if any(is_payload(f, r, p) for (f, r, p) in mine):
+                for (f, r, p) in other:
+                    ob = ctx.body(f)
+                    if r[0] == "call":
+                        found.add(mir.last_seg(r[2] or ""))
+                    elif r == ("arg", 2) and ob.fn["kind"] == "closure":
+                        # argument of an Option adapter closure: find the adapter call in the parent and its receiver
+                        site = ctx.closure_site(f)
+                        if site:
+                            pb, rv = site
+                            for bb, t in pb.calls():
+                                for a in t["args"][1:]:
+                                    if a["k"] in ("copy", "move") and any(rr[0] == "agg" and pb.blocks[rr[1]]["stmts"][rr[2]]["rv"] is rv for (rr, pp) in pb.trace(a["place"], through={})):
+                                        for (rr, pp) in pb.trace_operand(t["args"][0], through={}):
+                                            if rr[0] == "call":
+                                                found.add(mir.last_seg(rr[2] or ""))
+                    elif r[0] in ("call",):
+                        pass
+    return found
+
+
 def rule_l1(ctx):
     res = RuleResult("L1", "the gate compares accepted numeric payloads with the bounds of the type")
     cmps = comparisons(ctx, IS_OF_TYPE)
-    for variant, bounds in (("NumUnsigned", ["max"]), ("NumSigned", ["min", "max"])):
-        found = set()
-        for (body, b, st, lo, ro) in cmps:
-            for mine, other in ((lo, ro), (ro, lo)):
-                if any(f == IS_OF_TYPE and r == SELF1 and tuple(p[:2]) == ("as " + variant, "0") for (f, r, p) in mine):
-                    # what is it compared with: a value produced by <num type>::max / ::min
-                    for (f, r, p) in other:
-                        ob = ctx.body(f)
-                        if r[0] == "call":
-                            found.add(mir.last_seg(r[2] or ""))
-                        elif r == ("arg", 2) and ob.fn["kind"] == "closure":
-                            # argument of an Option adapter closure: find the adapter call in the parent and its receiver
-                            site = ctx.closure_site(f)
-                            if site:
-                                pb, rv = site
-                                for bb, t in pb.calls():
-                                    for a in t["args"][1:]:
-                                        if a["k"] in ("copy", "move") and any(rr[0] == "agg" and pb.blocks[rr[1]]["stmts"][rr[2]]["rv"] is rv for (rr, pp) in pb.trace(a["place"], through={})):
-                                            for (rr, pp) in pb.trace_operand(t["args"][0], through={}):
-                                                if rr[0] == "call":
-                                                    found.add(mir.last_seg(rr[2] or ""))
+    cmps_range = comparisons_step(ctx, IS_OF_TYPE)
+    for variant, bounds in (("NumUnsigned", ["max"]), ("NumSigned", ["min", "max"]), ("Range", ["max"])):
+        field = "1" if variant == "Range" else "0"
+        found = _bound_names(ctx, cmps_range if variant == "Range" else cmps,
+                             lambda f, r, p: f == IS_OF_TYPE and r == SELF1 and tuple(p[:2]) == ("as " + variant, field))
         for bnd in bounds:
             site = "Literal::%s payload vs %s()" % (variant, bnd)
             if bnd in found:
@@ -342,6 +382,39 @@ def _usize_bits(ctx):
     return v
 
 
+def _sub_guarded(ctx, body, b, ops):
+    """`x - c` (c a constant) on a path on which a dominating comparison of the same x with a constant implies x >= c."""
+    from . import C02
+    if len(ops) != 2 or ops[1]["k"] != "const" or not isinstance(ops[1].get("val"), int) or ops[0]["k"] not in ("copy", "move"):
+        return False
+    c = ops[1]["val"]
+    x = set(body.trace(ops[0]["place"]))
+    edges = set()
+    for bb, blk in enumerate(body.blocks):
+        for st in blk["stmts"]:
+            if st["k"] != "assign" or st["rv"]["k"] != "binop" or st["rv"]["op"] not in CMP or st["place"]["p"]:
+                continue
+            l, r, op = st["rv"]["l"], st["rv"]["r"], st["rv"]["op"]
+            if l["k"] == "const" and r["k"] in ("copy", "move"):
+                l, r = r, l
+                op = {"Lt": "Gt", "Gt": "Lt", "Le": "Ge", "Ge": "Le"}.get(op, op)
+            if r["k"] != "const" or not isinstance(r.get("val"), int) or l["k"] not in ("copy", "move") or set(body.trace(l["place"])) != x:
+                continue
+            k = r["val"]
+            on_true = {"Eq": k >= c, "Ne": False, "Gt": k + 1 >= c, "Ge": k >= c, "Lt": False, "Le": False}[op]
+            on_false = {"Eq": k == 0 and c == 1, "Ne": k >= c, "Gt": False, "Ge": False, "Lt": k >= c, "Le": k + 1 >= c}[op]
+            res_local = st["place"]["l"]
+            for sb in range(body.n):
+                t = body.term(sb)
+                if t and t["k"] == "switch" and t["discr"]["k"] in ("copy", "move") and t["discr"]["place"]["l"] == res_local and all(v == 0 for v, _ in t["targets"]):
+                    if on_true:
+                        edges.add((sb, t["otherwise"]))
+                    if on_false:
+                        for v, tg in t["targets"]:
+                            edges.add((sb, tg))
+    return bool(edges) and C02._dominated_by_edges(body, edges, b)
+
+
 def rule_l5(ctx):
     res = RuleResult("L5", "no trapping arithmetic on literal payloads inside the gate")
     n = 0
@@ -353,7 +426,9 @@ def rule_l5(ctx):
                 for (f, r, p) in ctx.lifted_trace(body, o):
                     if f == IS_OF_TYPE and r == SELF1 and p:
                         tainted = True
-            if tainted:
+            if tainted and kind.startswith("Overflow(Sub") and _sub_guarded(ctx, body, b, ops):
+                res.ok({"site": kind, "verdict": "the subtrahend constant is not above the minuend on this path (guarding comparison dominates)"})
+            elif tainted:
                 res.bad(Finding("L5", body.id, "%s on a literal payload" % kind.split(" on ")[0], "the gate computes with the trapping operator on a value chosen by the API user: it panics instead of answering false", sp))
             else:
                 res.ok({"site": kind, "verdict": "operands are not literal payloads"})
@@ -548,7 +623,7 @@ def rule_l7(ctx):
 
 
 def run(ctx):
-    return ctx.run_rules([rule_l1, rule_l1b, rule_l2, rule_l3, rule_l4, rule_l5, rule_l6, rule_l7, rule_l8, rule_l9])
+    return ctx.run_rules([rule_l1, rule_l1b, rule_l2, rule_l3, rule_l4, rule_l5, rule_l6, rule_l7, rule_l8, rule_l9, rule_l10, rule_l11])
 
 
 # ---- the literal parser ------------------------------------------------------------------------------
@@ -803,4 +878,58 @@ def rule_l9(ctx):
                 res.ok({"function": f["id"], "opened": "%s at line %d" % (v, line), "verdict": "every path to Ok consumes %s" % PAIRS[v]})
     if n < 18 and not res.findings:
         raise AnchorMissing("L9: only %d bracket openers found in parse.rs (23 on the pinned tree)" % n)
+    return res
+
+
+def rule_l10(ctx):
+    """Sibling agreement of the entry points: the type a literal is tested or parsed against is the parameter type with its
+    const sizes resolved (Literal::is_of_type / check_type know nothing about ArrayConst sizes)."""
+    res = RuleResult("L10", "entry points test / parse literals against the parameter type after resolve_const_type")
+    n = 0
+    for f in ctx.fns.values():
+        if f["sp"][0] not in ("src/lib.rs", "src/eval.rs") or not f.get("mir"):
+            continue
+        body = ctx.body(f["id"])
+        for b, t in body.calls():
+            cal = mir.callee(t) or ""
+            if cal.endswith("Literal::is_of_type"):
+                tyarg = t["args"][2]
+            elif cal.endswith("Literal::parse"):
+                tyarg = t["args"][1]
+            else:
+                continue
+            if tyarg["k"] not in ("copy", "move"):
+                continue
+            roots = body.trace(tyarg["place"], through={})
+            from_param = [r for (r, p) in roots if any("params" in str(x) or x == "ty" for x in p)]
+            resolved = [r for (r, p) in roots if r[0] == "call" and str(r[2]).endswith("resolve_const_type")]
+            n += 1
+            if resolved and len(resolved) == len(roots):
+                res.ok({"function": f["id"], "call": "%s at line %d" % (mir.last_seg(cal), t["sp"][1]), "verdict": "type comes from resolve_const_type"})
+            else:
+                res.bad(Finding("L10", f["id"], "%s against an unresolved parameter type" % mir.last_seg(cal),
+                                "the literal is %s against a type that did not go through resolve_const_type: every literal for a `[T; N]` parameter is refused "
+                                "(while the sibling entry points accept it)" % ("parsed" if cal.endswith("parse") else "tested"), t["sp"]))
+    if n < 4 and not res.findings:
+        raise AnchorMissing("L10: expected the literal entry points of lib.rs / eval.rs, found %d" % n)
+    return res
+
+
+def rule_l11(ctx):
+    """The parser path: a range literal is lowered element by element with the bits of its number type, so the last element
+    (exclusive end - 1) has to be compared with that type's max wherever the number type is decided."""
+    res = RuleResult("L11", "the type checker compares the end of a range with the max of its element type")
+    tc = [f for f in ctx.find_fns("type_check", None, "check.rs") if "Expr<()>" in f["id"]]
+    if len(tc) != 1:
+        raise AnchorMissing("L11: type_check of untyped expressions not found")
+    sites = [(tc[0]["id"], "where the range is typed"), ("check::constrain_type", "where an untyped range takes on the expected element type")]
+    for fid, what in sites:
+        found = _bound_names(ctx, comparisons_step(ctx, fid),
+                             lambda f, r, p: r == SELF1 and "as Range" in p and p[-1] == "1")
+        if "max" in found:
+            res.ok({"function": fid, "verdict": "range end compared with max() of the number type (%s)" % what})
+        else:
+            res.bad(Finding("L11", fid, "range end not compared with the element type's max",
+                            "%s the exclusive end of the range is never compared with max() of its number type: `250u8..260` is accepted and lowered as 250..255, 0, 1, 2, 3" % what,
+                            ctx.fn(fid)["sp"]))
     return res
